@@ -716,6 +716,33 @@ func c19Check(p c19Prog, dir string) error {
 			}
 		}
 	}
+	// The same frames twice in one snapshot (several goroutines parked in the same functions,
+	// or recursion): the traceback followed by a second goroutine with the very same frame
+	// lines must render both alike - decoding one frame must not disturb the next.
+	for ci, cr := range crashes {
+		i := bytes.Index(cr.stderr, []byte("goroutine 1 ["))
+		if i < 0 {
+			continue
+		}
+		g1 := bytes.TrimRight(cr.stderr[i:], "\n")
+		if j := bytes.Index(g1, []byte("\n\n")); j >= 0 {
+			g1 = g1[:j]
+		}
+		nl := bytes.IndexByte(g1, '\n')
+		x := append(append(append([]byte{}, cr.stderr[:i]...), g1...), "\n\ngoroutine 2 [runnable]:"...)
+		x = append(append(x, g1[nl:]...), '\n')
+		two, _, _ := stack.ScanSnapshot(bytes.NewReader(x), io.Discard, c19OptsNaming(true, false))
+		if two == nil || len(two.Goroutines) != 2 || len(two.Goroutines[0].Stack.Calls) != len(two.Goroutines[1].Stack.Calls) {
+			return fmt.Errorf("HARNESS: the doubled traceback of chain %d does not give two equal goroutines", ci)
+		}
+		for k := range two.Goroutines[0].Stack.Calls {
+			a, b := &two.Goroutines[0].Stack.Calls[k], &two.Goroutines[1].Stack.Calls[k]
+			if !reflect.DeepEqual(a.Args.Processed, b.Args.Processed) {
+				return fmt.Errorf("chain %d: frame %s occurs in two goroutines of one snapshot with the same argument words (%s) but is rendered %q in the first and %q in the second", ci, a.Func.Name, a.Args.String(), a.Args.Processed, b.Args.Processed)
+			}
+		}
+		st.class("frames_rendered_twice_in_one_snapshot", int64(len(two.Goroutines[0].Stack.Calls)))
+	}
 	// The same crashes against every kind of mismatching source tree (the build is the
 	// expensive part of a case; a scan is not).
 	for kind := 1; kind < len(mutationNames); kind++ {
